@@ -103,6 +103,10 @@ def partsOf : GoVal → List GoVal
   | .udtstruct _ vs => vs
   | _ => []
 
+/-- the parts as a list of exactly `n` values (a destination of the right Go type always has exactly `n` parts: then
+    `fit n l = l`; the padding only makes the model total on ill-shaped values) -/
+def fit (n : Nat) (l : List GoVal) : List GoVal := (l ++ List.replicate n GoVal.nil).take n
+
 /-- unmarshalList's element loop on an ARRAY target: `Unmarshal(elem, item, rv.Index(i).Addr())` — element `i` of
     the array the destination already holds is the target of the call (`f item prev_i`) -/
 def elemsInto (p : Nat) (f : Option Bytes → GoVal → URes) : Nat → Bytes → List GoVal → LRes (List GoVal)
@@ -156,7 +160,7 @@ def intoBase (p : Nat) (t : CqlTy) (ty : GoTy) (data : Option Bytes) (prev : GoV
     (match t with
      | .udt names ts =>
        if dataBytes data = [] then .ok (.udtstruct fnames (zeroOfs gs)) else
-       (match udtInto p names ts fnames gs (dataBytes data) (partsOf prev) with
+       (match udtInto p names ts fnames gs (dataBytes data) (fit gs.length (partsOf prev)) with
         | .ok vs _ => .ok (.udtstruct fnames vs)
         | .err => .err | .crash => .crash | .unmodelled => .unmodelled)
      | _ => unmarshalBase p t ty data)
@@ -165,7 +169,7 @@ def intoBase (p : Nat) (t : CqlTy) (ty : GoTy) (data : Option Bytes) (prev : GoV
      | .udt names ts =>
        -- no cql tags and no field named like a UDT field: every field of the value is read and skipped
        if dataBytes data = [] then .ok (.struct (zeroOfs gs)) else
-       (match udtInto p names ts [] gs (dataBytes data) (partsOf prev) with
+       (match udtInto p names ts [] gs (dataBytes data) (fit gs.length (partsOf prev)) with
         | .ok vs _ => .ok (.struct vs)
         | .err => .err | .crash => .crash | .unmodelled => .unmodelled)
      | _ => unmarshalBase p t ty data)
